@@ -111,7 +111,7 @@ class Result:
 
 class World:
 
-  def __init__(self, descriptors):
+  def __init__(self, descriptors, pool_seed=None):
     self.gin = core.import_gin()
     from gin import config
     self.config = config
@@ -124,7 +124,8 @@ class World:
     self.unlock_cms = []
     self.nonlits = {}
     World.serial = getattr(World, 'serial', 0) + 1
-    self.rng = random.Random(core.seed() * 100003 + World.serial)
+    self.pool_seed = core.seed() * 100003 + World.serial if pool_seed is None else pool_seed
+    self.rng = random.Random(self.pool_seed)
     self.lit_pool = list(LIT_POOL)
     self.rng.shuffle(self.lit_pool)
     self.nonlit_pool = _nonlit_pool()
@@ -137,11 +138,27 @@ class World:
     self._reg_before = dict(config._REGISTRY.items())
     self._inv_before = dict(config._INVERSE_REGISTRY)
     self._hooks_before = list(config._FINALIZE_HOOKS)
-    self.gin.clear_config(clear_constants=True)
+    self._hard_reset()
     for d in descriptors:
       self.register(d)
 
   # -- lifecycle -------------------------------------------------------------
+  def _hard_reset(self):
+    """Isolation between worlds must not depend on the clear_config under test."""
+    config = self.config
+    try:
+      self.gin.clear_config(clear_constants=True)
+    except Exception:  # pylint: disable=broad-except
+      pass
+    for name in ('_CONFIG', '_CONFIG_PROVENANCE', '_IMPORTS', '_OPERATIVE_CONFIG', '_SINGLETONS'):
+      store = getattr(config, name, None)
+      if store is not None:
+        store.clear()
+    consts = config._CONSTANTS
+    for k in [k for k, _ in list(consts.items()) if k != 'gin.REQUIRED']:
+      consts.pop(k)
+    config._set_config_is_locked(False)
+
   def close(self):
     config = self.config
     while self.cms:
@@ -158,13 +175,7 @@ class World:
     config._SCOPE_MANAGER = config._ScopeManager()
     config._INTERACTIVE_MODE = False
     config._FINALIZE_HOOKS[:] = self._hooks_before
-    try:
-      self.gin.clear_config(clear_constants=True)
-    except Exception:  # pylint: disable=broad-except
-      config._CONFIG.clear()
-      config._CONSTANTS.clear()
-      config._CONSTANTS['gin.REQUIRED'] = config.REQUIRED
-      config._set_config_is_locked(False)
+    self._hard_reset()
     for sel in [k for k, _ in list(config._REGISTRY.items()) if k not in self._reg_before]:
       config._REGISTRY.pop(sel)
     for k in [k for k in list(config._INVERSE_REGISTRY) if k not in self._inv_before]:
